@@ -1,12 +1,20 @@
 #!/bin/bash
 # Offline setup after a fresh restore: warm the Go build cache for every monitor (nothing is fetched).
+# Each ./check rebuilds its own monitor anyway; a monitor that fails to build here fails its own check, not the setup.
 set -u
 cd "$(dirname "$(readlink -f "$0")")"
 export GOFLAGS=-mod=mod GOPROXY=off
 unset GOSUMDB GOTOOLCHAIN
-mkdir -p "${VERIF_SCRATCH:-/var/tmp/verif-scratch}/bin" evidence replay
-go build -tags verif ./... || exit 1
-GOEXPERIMENT=synctest go build -tags verif ./... || exit 1
-go build -race -tags verif ./cmd/c13 2>/dev/null || true
-rm -f c13
+S="${VERIF_SCRATCH:-/var/tmp/verif-scratch}"
+mkdir -p "$S/bin" evidence replay
+go build -tags verif ./internal/... || exit 1
+for d in cmd/*/; do
+  n=$(basename "$d")
+  case "$n" in
+    c01|c12|c16|c17|c19) GOEXPERIMENT=synctest go build -tags verif -o "$S/bin/setup.$n" "./cmd/$n" || echo "warning: $n does not build" ;;
+    c13) go build -race -tags verif -o "$S/bin/setup.$n" "./cmd/$n" || echo "warning: $n does not build" ;;
+    *) go build -tags verif -o "$S/bin/setup.$n" "./cmd/$n" || echo "warning: $n does not build" ;;
+  esac
+  rm -f "$S/bin/setup.$n"
+done
 echo setup ok
